@@ -330,6 +330,28 @@ Theorem C03_exec_to_var : forall (o : qop Qc_OF), qop_wf Qc_OF o ->
 Proof. intros o W. split; [exact (obj_of_stacked_stacked o W)|exact (op_to_var_spec o W)]. Qed.
 Print Assumptions C03_exec_to_var.
 
+(* the generate_from_var and calc_gradient wrappers: the template the wrapper rebuilds from no data has the object's configuration, and the
+   model reads nothing else of it *)
+Theorem C03_exec_from_var : forall (o : qop Qc_OF) (sd : Qc) (var : list Qc),
+  op_from_var [qop_code o; Z.of_nat (qop_d o); Z.of_nat (qop_m o); flag_code (qop_flag o)] (sd :: var) =
+  match qop_from_var Qc_OF (fun _ => sd) o var with Some o' => Ok (qop_stacked Qc_OF o') | None => Err 1 end.
+Proof. exact op_from_var_spec. Qed.
+Print Assumptions C03_exec_from_var.
+Theorem C03_exec_gradient : forall (o : qop Qc_OF) (i : Z) (qs : list Qc),
+  op_gradient [qop_code o; Z.of_nat (qop_d o); Z.of_nat (qop_m o); flag_code (qop_flag o); i] qs =
+  match qop_gradient Qc_OF o i with Some g => Ok g | None => Err 2 end.
+Proof. exact op_gradient_spec. Qed.
+Print Assumptions C03_exec_gradient.
+
+(* the static stacked <-> var wrappers *)
+Theorem C03_exec_static_conversions : forall (o : qop Qc_OF) (sd : Qc) (l : list Qc),
+  op_var_to_stacked [qop_code o; Z.of_nat (qop_d o); flag_code (qop_flag o)] (sd :: l) =
+    match qop_var_to_stacked Qc_OF (fun _ => sd) o l with Some r => Ok r | None => Err 1 end /\
+  op_stacked_to_var [qop_code o; Z.of_nat (qop_d o); flag_code (qop_flag o)] (sd :: l) =
+    match qop_stacked_to_var Qc_OF (fun _ => sd) o l with Some r => Ok r | None => Err 1 end.
+Proof. intros o sd l. split; [exact (op_var_to_stacked_spec o sd l)|exact (op_stacked_to_var_spec o sd l)]. Qed.
+Print Assumptions C03_exec_static_conversions.
+
 (* ------------------------------------------------------------------ non-vacuity: concrete instances over Qc *)
 (* index maps: 1-qubit instrument with 3 outcomes under the constraint has 3*16-4 = 44 variables; variable 40 lives in
    the last HS matrix, row 3 (shifted by the implied row), column 0, i.e. at stacked position 44 = 40 + 4 *)
